@@ -240,8 +240,12 @@ class Ctx:
         }
         os.makedirs(EVIDENCE, exist_ok=True)
         json.dump(ev, open(os.path.join(EVIDENCE, self.pid + ".json"), "w"), indent=1, sort_keys=True)
+        printed = set()
         for k in self.known_seen:
-            print("KNOWN-FINDING: property=%s %s" % (self.pid, k["known"].get("what", k["what"])))
+            line = "KNOWN-FINDING: property=%s %s" % (self.pid, k["known"].get("what", k["what"]))
+            if line not in printed:
+                printed.add(line)
+                print(line)
         for v in self.violations:
             print("VIOLATION property=%s replay=%s" % (self.pid, v["replay"] or "-"))
             print("  " + v["what"].replace("\n", "\n  "))
